@@ -356,10 +356,10 @@ Proof.
   - destruct rest; [destruct name; reflexivity|].
     destruct (find_bg _ _); [reflexivity|].
     destruct (can_start _ _ _); [simpl; rewrite mark_racy_updates; reflexivity|].
-    destruct neg; reflexivity.
+    unfold start_failed_state; destruct (is_bare _ && _), neg; reflexivity.
   - destruct (can_start _ _ _).
     + destruct (meets _ _); simpl; rewrite mark_racy_updates; reflexivity.
-    + destruct neg; reflexivity.
+    + unfold start_failed_state; destruct (is_bare _ && _), neg; reflexivity.
 Qed.
 Lemma upd_custom cfg k neg args st : U (cmd_custom cfg k neg args st) = s_updates st.
 Proof. unfold U, cmd_custom. crush. Qed.
